@@ -25,7 +25,7 @@ func init() {
 			`R03.8 both series loops consult ShouldSave inside the loop, request and pop a reader checkpoint on that edge, and offer the popped checkpoint; ` +
 			`R03.9 every path from reading a SyncOp / bsdiff Control to SaveConsumer.Save passes the application of that message (a checkpoint never sits between consuming a message and writing its bytes). ` +
 			`R03.3 also demands that every other field of an entry writer that has a Flush method (a bufio.Writer between Write and the file) is flushed, error checked, before the Sync in Save. ` +
-			`R03.10 the slices the overlay bowl's Save stores in its checkpoint are the bowl's own lists or complete copies of them; R01.9 (shared) entry writers hand every byte on. R14.9 (shared; replaces the former shape test inside R03.4) every path to NewOverlayWriter(r, readOffset, ...) passes a Seek(x, SeekStart) on r with x one of the values merging into readOffset; R03.4 keeps: each offset handed over is the checkpoint's field of that name, or zero. NOT decided: that the four layers agree at every interruption point, content equality after resume, savior's decompressor checkpoints.`,
+			`R03.10 the slices the overlay bowl's Save stores in its checkpoint are the bowl's own lists or complete copies of them; R01.9 (shared) entry writers hand every byte on. R14.9 (shared; replaces the former shape test inside R03.4) every path to NewOverlayWriter(r, readOffset, ...) passes a Seek(x, SeekStart) on r with x one of the values merging into readOffset; R03.4 keeps: each offset handed over is the checkpoint's field of that name, or zero. R14.3 (shared) the overlay's magic is written only under overlayOffset == 0 (the writer is made anew for every session). R03.8/R03.9 see a message read through a local function literal (readOp := func() error {...}). NOT decided: that the four layers agree at every interruption point, content equality after resume, savior's decompressor checkpoints.`,
 		Assumptions: []string{"checkpoint types are those reachable from patcher.Checkpoint inside the module plus the payload types stored into BowlCheckpoint.Data / WriterCheckpoint.Data"},
 		Run:         runC03,
 	})
@@ -288,7 +288,11 @@ func runC03(c *core.Ctx) {
 				return
 			}
 			idx := wireReadCall(cl)
-			if idx < 0 || core.TypeName(core.StripConv(cl.Common().Args[idx]).Type()) != msgType {
+			if idx < 0 {
+				if readThroughLiteral(in, msgType) == nil {
+					return
+				}
+			} else if core.TypeName(core.StripConv(cl.Common().Args[idx]).Type()) != msgType {
 				return
 			}
 			nRd++
@@ -573,6 +577,7 @@ func runC03(c *core.Ctx) {
 	}
 
 	ruleOverlayReaderStandsWhereTold(c, "R14.9", 1)
+	ruleOverlayHeaderOnlyAtStart(c)
 	ruleWorkListDedup(c)
 	ruleSavedListsAreWhole(c)
 	ruleEntryWritersWriteEverything(c)
@@ -604,7 +609,37 @@ func runC03(c *core.Ctx) {
 // wireReadCall2 reports whether in fills a message from the wire.
 func wireReadCall2(in ssa.Instruction) bool {
 	cl, ok := in.(ssa.CallInstruction)
-	return ok && wireReadCall(cl) >= 0
+	return ok && (wireReadCall(cl) >= 0 || readThroughLiteral(in, "") != nil)
+}
+
+// readThroughLiteral: in is a call of a function literal of the same function that reads a message off the
+// wire (a local `readOp := func() error { err := rctx.ReadMessage(op); ... }` that decorates the error, say);
+// the wire read inside is returned. msgType, when given, restricts the message type read.
+func readThroughLiteral(in ssa.Instruction, msgType string) ssa.CallInstruction {
+	cl, ok := in.(*ssa.Call)
+	if !ok {
+		return nil
+	}
+	lit := calledFunc(cl)
+	if lit == nil || lit.Parent() == nil || lit.Parent() != cl.Parent() {
+		return nil
+	}
+	var found ssa.CallInstruction
+	core.Instrs(lit, func(x ssa.Instruction) {
+		rc, ok := x.(ssa.CallInstruction)
+		if !ok {
+			return
+		}
+		idx := wireReadCall(rc)
+		if idx < 0 {
+			return
+		}
+		if msgType != "" && core.TypeName(core.StripConv(rc.Common().Args[idx]).Type()) != msgType {
+			return
+		}
+		found = rc
+	})
+	return found
 }
 
 // condOnlyAbout: the condition tests only values for which about() holds,
